@@ -252,8 +252,10 @@ func genJSONCase(r *Rand, i int) jsonCase {
 				switch r.Intn(7) {
 				case 0: // default container, ints in some representation
 					cj = append(cj, eExpr{F: 0, Inc: inc, V: intsShape(r, []int64{pick(r, ivals), pick(r, ivals)})})
-				case 1: // default container, strings / floats
-					if r.Bool() {
+				case 1: // default container, strings / floats / json.Number literals that are not plain integers
+					if r.Chance(12) {
+						cj = append(cj, eExpr{F: 1, Inc: inc, V: pick(r, []TV{tvJSON("2.7"), tvSlice("[]json.Number", tvJSON("1e3"), tvJSON("7")), tvList(tvJSON("1.0"), tvStr("red")), tvJSON("-0"), tvJSON("100.5")})})
+					} else if r.Bool() {
 						cj = append(cj, eExpr{F: 1, Inc: inc, V: tvSlice("[]string", tvStr(pick(r, words)))})
 					} else {
 						cj = append(cj, eExpr{F: 1, Inc: inc, V: tvSlice("[]float64", tvFloat("float64", float64(pick(r, ivals))+0.5))})
@@ -287,7 +289,8 @@ func genJSONCase(r *Rand, i int) jsonCase {
 			a = append(a, eAssign{F: 0, V: intsShape(r, []int64{pick(r, ivals)})})
 		}
 		if r.Chance(50) {
-			a = append(a, eAssign{F: 1, V: pick(r, []TV{tvStr(pick(r, words)), tvInt("int", pick(r, ivals)), tvFloat("float64", float64(pick(r, ivals))+0.5)})})
+			a = append(a, eAssign{F: 1, V: pick(r, []TV{tvStr(pick(r, words)), tvInt("int", pick(r, ivals)), tvFloat("float64", float64(pick(r, ivals))+0.5),
+				tvStr("2.7"), tvInt("int", 2), tvStr("1e3"), tvJSON("1.0"), tvFloat("float64", 100.5)})})
 		}
 		if r.Chance(70) {
 			a = append(a, eAssign{F: 2, V: tvInt("int64", pick(r, ivals)+int64(r.Intn(3)-1))})
